@@ -315,6 +315,15 @@ func (s *Store) Close() error {
 	vhook.Point("close.stopped")
 	cerr := s.Err()
 
+	// Stop the primary GC before anything is flushed for the last time. A
+	// record that GC relocates after the index has been flushed and closed
+	// keeps its old index entry, but its old location is still put on the
+	// freelist, which is closed last. The next GC would then delete a record
+	// that the index names.
+	if mp, ok := s.index.Primary.(*mhprimary.MultihashPrimary); ok {
+		mp.StopGC()
+	}
+
 	// Write the primary data before the index is flushed and closed, as commit
 	// does, so that a crash in between never leaves index records that name
 	// primary data which is not on disk.
